@@ -30,7 +30,8 @@ ASSUMPTIONS = [
 ]
 FLOORS = {'serial_field_calls': 100000, 'date_constructor_calls': 2000,
           'month_move_calls': 2000, 'pair_calls': 2000,
-          'early_1900_cases': 100}
+          'early_1900_cases': 100, 'timed_serial_field_cases': 100,
+          'end_of_range_month_moves': 20}
 ANCHOR_FUNCS = {
     'xlcalculator/xlfunctions/date.py': ['DATE', 'YEAR', 'MONTH', 'DAY',
                                          'WEEKDAY', 'ISOWEEKNUM', 'EDATE',
@@ -225,6 +226,26 @@ def run(ctx):
             ctx.fail(bad, {'serial': n, 'date': str(d)},
                      monitor='serial-date-bijection',
                      group='conversion:' + bc[1])
+
+    # ---- the calendar fields of a serial WITH a time of day are those of its
+    # day (the fraction is the time of day, it moves no date) ------------------
+    if ctx.shard in (4, 5) or thorough:
+        for n in (61, 62, 100, 36526, 43831, 44000, 45000, 45291, 73050,
+                  MAXSERIAL - 1):
+            d = date_of(n)
+            for secs in (1, 60, 3600, 43200, 60480, 86399, 21600.5):
+                x = n + secs / 86400
+                R.check('YEAR', (x,), d.year, 'serial_field_calls',
+                        ('YEAR-timed', n, secs))
+                R.check('MONTH', (x,), d.month, 'serial_field_calls',
+                        ('MONTH-timed', n, secs))
+                R.check('DAY', (x,), d.day, 'serial_field_calls',
+                        ('DAY-timed', n, secs))
+                for t in (None, 2, 11, 17):
+                    args = (x,) if t is None else (x, t)
+                    R.check('WEEKDAY', args, weekday_ref(d, t),
+                            'serial_field_calls', ('WEEKDAY-timed', t, n))
+                ctx.event('timed_serial_field_cases')
 
     # ---- time of day --------------------------------------------------------
     for _ in range((40 if not thorough else 400) if have_conv else 0):
